@@ -97,8 +97,9 @@ def check_property(pid, tier, seed):
                 if o["kind"] == "extracted":
                     functions_under_contract.append(o["name"].split("/", 3)[-1])
             if r.obligations:
-                samples.append({"obligation": r.obligations[0]["name"], "engine": "verus",
-                                "contract_source": u["template"], "status": r.obligations[0]["status"]})
+                samples.append({"obligation": r.obligations[min(1, len(r.obligations) - 1)]["name"], "engine": "verus",
+                                "contract_source": u["template"], "status": r.obligations[min(1, len(r.obligations) - 1)]["status"],
+                                "written_out": getattr(r, "sample", None)})
         # ------------------------------------------------------------------ Kani units
         for k in (spec.get("kani", []) if os.environ.get("VERIF_ENGINES", "") != "verus" else []):
             inject = k.get("inject", ())
@@ -154,7 +155,8 @@ def check_property(pid, tier, seed):
             first = next((o for o in obligations if o["engine"].startswith("kani")), None)
             if first:
                 samples.append({"obligation": first["name"], "engine": first["engine"], "bound": first["bound"],
-                                "harness_source": first["files"], "status": first["status"]})
+                                "harness_source": first["files"], "status": first["status"],
+                                "written_out": _harness_text(first.get("files", []), first.get("harness"))})
         # ------------------------------------------------------------------ native bounded stand-ins
         for nb in (spec.get("native", []) if os.environ.get("VERIF_ENGINES", "") != "verus" else []):
             t1 = time.time()
@@ -208,7 +210,7 @@ def check_property(pid, tier, seed):
     all_unbounded = not bounded
     from .manifest_text import TEXT as _MT
     claimed = _MT[pid]["category"]      # single source: the level claimed in MANIFEST.json
-    if claimed == "proof" and not (all_unbounded and n_disch == n_total):
+    if claimed == "proof" and not violations and not (all_unbounded and n_disch == n_total):
         # a proof-level claim needs every obligation unbounded and discharged; anything else is an error of the unit table
         tool_errors.append(f"{pid}: claimed level 'proof' but {len(bounded)} bounded / {n_total - n_disch} undischarged obligations")
     level = claimed
@@ -262,6 +264,19 @@ def check_property(pid, tier, seed):
             print(f"ERROR undecided obligation {o['name']}: {o['detail'][:500]}")
         return 2
     return 0
+
+
+def _harness_text(files, name):
+    """Source text of one harness function (for the evidence `samples`)."""
+    for f in files:
+        try:
+            txt = open(os.path.join(VERIF, f)).read()
+        except Exception:
+            continue
+        m = re.search(r"((?:[ \t]*///[^\n]*\n)*[^\n]*\n?[ \t]*pub fn " + re.escape(name or "") + r"\s*\(\)[^\n]*\n(?:.*\n){0,25})", txt)
+        if m:
+            return m.group(1)[:1500]
+    return None
 
 
 def _match_finding(o, findings):
@@ -335,6 +350,7 @@ def replay(path):
 def main(argv):
     if len(argv) >= 2 and argv[1] == "setup":
         kani_runner.ensure_kani_cache()
+        kani_runner.ensure_replay_cache()
         print("setup ok")
         return 0
     if len(argv) >= 2 and argv[1] == "selftest":
